@@ -58,6 +58,16 @@ Theorem C08_by_name_eq : forall farith fpow fcmp i2f o l r,
 Proof. exact by_name_eq. Qed.
 Print Assumptions C08_by_name_eq.
 
+(* the statically bound Int overloads: value.XInts -> SmallInt.XInt / BigInt.XInt (AddInt SubtractInt
+   MultiplyInt DivideInt ModuloInt ExponentiateInt, the comparison, shift and bitwise XInt helpers),
+   separate Go functions from the XVal family, reached by `a.op(b)` with both operands typed Int
+   (natives op@1) and by the Go backend: on Int operands they return what the generic path returns *)
+Theorem C08_static_overload_eq : forall farith fpow fcmp i2f o l r,
+  is_int l = true -> is_int r = true ->
+  x_ints o l r = generic farith fpow fcmp i2f o l r.
+Proof. exact static_overload_eq. Qed.
+Print Assumptions C08_static_overload_eq.
+
 (* hypotheses satisfiable, paths compute something; and the accessor mix-up of the unfixed
    opSubtractFloat is expressible in the model: reading Float bits as an integer differs *)
 Example C08_nonvacuous :
@@ -70,3 +80,20 @@ Example C08_nonvacuous :
   fold fa fp fc cv (OArith OpDiv) (VSmall 1) (VSmall 0) = None /\
   as_small_int (VFloat 4615063718147915776) <> as_float (VSmall 3).
 Proof. repeat split; try (vm_compute; reflexivity). vm_compute. discriminate. Qed.
+
+(* the static helpers compute: MinSmallInt / 2**63 = -1 (the quotient of a SmallInt by a BigInt is
+   not always 0), MinSmallInt % 2**63 = 0, a non-Int right operand is a wild pointer; and Int/Float
+   comparisons are exact: 2**53 + 1 > 2**53 as a Float although both round to the same double *)
+Example C08_static_nonvacuous :
+  let fa := fun (_ : binop) (x y : Z) => x + y in
+  let fp := fun x y : Z => x in let fc := fun (_ : cmpop) (x y : Z) => x <? y in let cv := fun z : Z => z in
+  divide_ints (VSmall (- 2 ^ 63)) (VBig (2 ^ 63)) = Ok (VSmall (-1)) /\
+  divide_ints (VSmall 7) (VBig (2 ^ 63)) = Ok (VSmall 0) /\
+  modulo_ints (VSmall (- 2 ^ 63)) (VBig (2 ^ 63)) = Ok (VSmall 0) /\
+  multiply_ints (VSmall (- 2 ^ 63)) (VSmall (-1)) = Ok (VBig (2 ^ 63)) /\
+  divide_ints (VBig (2 ^ 64)) (VSmall 0) = Err E_ZERO_DIV /\
+  x_ints OShl (VSmall 1) (VFloat 0) = Panic P_NIL /\
+  generic fa fp fc cv (OCmp CGt) (VSmall (2 ^ 53 + 1)) (VFloat 4845873199050653696) = Ok (VBool true) /\
+  generic fa fp fc cv (OCmp CLt) (VFloat 4845873199050653696) (VBig (2 ^ 64)) = Ok (VBool true) /\
+  generic fa fp fc cv (OCmp CGe) (VFloat 9221120237041090560) (VSmall 0) = Ok (VBool false).
+Proof. repeat split; vm_compute; reflexivity. Qed.
